@@ -4,7 +4,8 @@
 //! (2) a host that follows a script replacing the hint (advice-stack values pushed by an injector,
 //! values returned to ADVPOP/ADVPOPW/PIPE, Merkle paths returned to MPVERIFY/MRUPDATE). The oracle is
 //! result-based and native (Rust integer ops, own F_p[x]/(x^2-x+2) arithmetic, miden-crypto trees):
-//! a dishonest run may fail, or succeed with exactly the correct final stack; nothing else.
+//! a dishonest run may fail (error or abort), or succeed with exactly the correct final stack; nothing
+//! else. Aborts by panic under dishonest advice are counted, not reported as violations.
 
 use crate::case::{err_kind, exec_host, AsmOutcome, Case, ExecOutcome};
 use crate::report::{merge_all, Cfg, Meta, Report};
@@ -470,6 +471,23 @@ fn air_verdict(trace: &mut processor::ExecutionTrace, si: &StackInputs) -> Strin
     }
 }
 
+/// Routines that are exercised but are not among the instructions the property statement lists:
+/// accepted wrong results are reported under `outside_statement`, not as violations.
+fn outside_statement(instr: &str) -> bool {
+    instr == "falcon::mod_12289"
+}
+
+/// Stable signatures: one per defect, not one per hint relation.
+fn final_sig(instr: &str, kind: &str, relation: &str) -> String {
+    match (instr, kind) {
+        ("ilog2", "wrong-result-accepted") => "ilog2/wrong-hint-accepted".into(),
+        ("ilog2", "invalid-operand-accepted") if relation != "honest" => "ilog2/zero-operand-accepted".into(),
+        ("mtree_get", "wrong-result-accepted") if relation.starts_with("other-depth-opening") => "mtree_get/other-depth-opening-accepted".into(),
+        ("mtree_verify", "invalid-operand-accepted") if relation.starts_with("other-depth-opening") => "mtree_verify/other-depth-opening-accepted".into(),
+        _ => format!("{}/{}/{}", instr, kind, relation),
+    }
+}
+
 #[derive(Clone, Copy, PartialEq, Eq, Debug)]
 pub enum Verdict {
     OkCorrect,
@@ -498,9 +516,17 @@ pub fn evaluate(ctx: &Ctx, t: &Trial, rep: &mut Report, air_sample: bool) -> Ver
     match out {
         ExecOutcome::Panic(p) => {
             rep.count("outcome", &format!("{}|panic", instr));
+            if !honest {
+                // the property allows "does not complete": an abort provoked by dishonest advice is
+                // recorded as an outcome class, not as a violation
+                rep.count("dishonest_outcome", &format!("panic:{}", p.site()));
+                rep.count("dishonest", "panicked");
+                rep.count("dishonest_panics", &format!("{}|{}|{}", instr, p.site(), p.msg_key()));
+                return Verdict::Rejected;
+            }
             rep.violation(
                 format!("{}/panic/{}", instr, p.site()),
-                format!("{} host, {} operands, hint relation {}: panic at {} ({})", if honest { "honest" } else { "dishonest" }, t.opclass, t.relation, p.site(), p.message),
+                format!("honest host, {} operands {:?}: panic at {} ({})", t.opclass, t.stack, p.site(), p.message),
                 witness(ctx, t),
             );
             Verdict::Violation
@@ -522,6 +548,7 @@ pub fn evaluate(ctx: &Ctx, t: &Trial, rep: &mut Report, air_sample: bool) -> Ver
             } else {
                 rep.count("outcome", &format!("{}|rejected", instr));
                 rep.count("dishonest", "rejected");
+                rep.count("dishonest_outcome", &format!("err:{}", kind));
             }
             Verdict::Rejected
         }
@@ -534,6 +561,7 @@ pub fn evaluate(ctx: &Ctx, t: &Trial, rep: &mut Report, air_sample: bool) -> Ver
                     } else {
                         rep.count("outcome", &format!("{}|accepted-correct", instr));
                         rep.count("dishonest", "accepted-with-correct-result");
+                        rep.count("dishonest_outcome", "accepted-with-correct-result");
                         rep.count("accepted_correct_relation", &format!("{}|{}", instr, t.relation));
                     }
                     if air_sample {
@@ -562,8 +590,13 @@ pub fn evaluate(ctx: &Ctx, t: &Trial, rep: &mut Report, air_sample: bool) -> Ver
                         );
                     } else {
                         rep.count("outcome", &format!("{}|wrong-accepted", instr));
+                        rep.count("dishonest_outcome", "accepted-with-wrong-result");
+                        if outside_statement(instr) {
+                            rep.count("outside_statement", &format!("{}|wrong-result-accepted|{}", instr, t.relation));
+                            return Verdict::Violation;
+                        }
                         rep.violation(
-                            format!("{}/wrong-result-accepted/{}", instr, t.relation),
+                            final_sig(instr, "wrong-result-accepted", &t.relation),
                             format!("dishonest host ({}), {} operands {:?}: execution completed with final stack {:?}, correct is {:?}; {}", t.relation, t.opclass, t.stack, &outs[..n], exp, air),
                             witness(ctx, t),
                         );
@@ -573,8 +606,15 @@ pub fn evaluate(ctx: &Ctx, t: &Trial, rep: &mut Report, air_sample: bool) -> Ver
                 None => {
                     let air = air_verdict(&mut trace, &si);
                     rep.count("outcome", &format!("{}|invalid-accepted", instr));
+                    if !honest {
+                        rep.count("dishonest_outcome", "completed-without-correct-result");
+                    }
+                    if outside_statement(instr) {
+                        rep.count("outside_statement", &format!("{}|invalid-operand-accepted|{}", instr, t.relation));
+                        return Verdict::Violation;
+                    }
                     rep.violation(
-                        format!("{}/invalid-operand-accepted/{}", instr, if honest { "honest" } else { t.relation.as_str() }),
+                        final_sig(instr, "invalid-operand-accepted", if honest { "honest" } else { t.relation.as_str() }),
                         format!("{} host ({}), {} operands {:?} for which no correct result exists: execution completed with {:?}; {}", if honest { "honest" } else { "dishonest" }, t.relation, t.opclass, t.stack, &outs[..8.min(outs.len())], air),
                         witness(ctx, t),
                     );
@@ -1833,7 +1873,7 @@ const MERKLE_RELS: [&str; 14] = [
 pub fn meta() -> Meta {
     Meta {
         level: "fault_enumeration",
-        rule: "each evaluation = one execution of a real assembled one-instruction program (u32clz/ctz/clo/cto, ilog2, ext2inv/ext2div, std::math::u64::{div,mod,divmod,clz,ctz,clo,cto}, rpo_falcon512::mod_12289, mtree_get/set/verify/merge) or of an adv_push/adv_loadw/adv_pipe order program under either the honest default host or a scripted host that replaces the hint (advice values after the injector ran or at the pop request, or the Merkle path handed to MPVERIFY/MRUPDATE), judged by a native oracle: honest+valid operands must succeed with the exact final stack; a dishonest run may only fail or finish with the exact correct final stack; panics are violations. Hint grids: all of 0..=64 plus boundary/random field elements for counts and ilog2; truth, truth+-1, compensated (q-k, r+k*b), limbs >= 2^32, structured and random values for 64-bit division; truth, +-1 per coordinate, related, boundary and random pairs for extension inverses; wrong node, wrong sibling at every level, too short/long/empty paths, openings at another depth/index/tree for Merkle ops on full trees of depth 1..6 and a sparse depth-16 tree. distinct = distinct (instruction, operand class, hint relation to the truth)".into(),
+        rule: "each evaluation = one execution of a real assembled one-instruction program (u32clz/ctz/clo/cto, ilog2, ext2inv/ext2div, std::math::u64::{div,mod,divmod,clz,ctz,clo,cto}, rpo_falcon512::mod_12289, mtree_get/set/verify/merge) or of an adv_push/adv_loadw/adv_pipe order program under either the honest default host or a scripted host that replaces the hint (advice values after the injector ran or at the pop request, or the Merkle path handed to MPVERIFY/MRUPDATE), judged by a native oracle: honest+valid operands must succeed with the exact final stack; a dishonest run may only fail (Err, or an abort by panic, which is recorded in `dishonest_outcome`/`panics_on_dishonest_advice` but is not a violation) or finish with the exact correct final stack; a panic under the honest host is a violation; rpo_falcon512::mod_12289 is exercised too but, not being listed in the statement, only reported under `outside_statement`. Hint grids: all of 0..=64 plus boundary/random field elements for counts and ilog2; truth, truth+-1, compensated (q-k, r+k*b), limbs >= 2^32, structured and random values for 64-bit division; truth, +-1 per coordinate, related, boundary and random pairs for extension inverses; wrong node, wrong sibling at every level, too short/long/empty paths, openings at another depth/index/tree for Merkle ops on full trees of depth 1..6 and a sparse depth-16 tree. distinct = distinct (instruction, operand class, hint relation to the truth)".into(),
         assumptions: vec![
             "native Rust integer/bit operations, the harness' own F_p and F_p[x]/(x^2-x+2) arithmetic (self-checked by multiplication) and miden-crypto MerkleTree/SimpleSmt + Rpo256::merge are the reference".into(),
             "the host can only act through the Host trait (get_advice/set_advice responses); operands that the documentation calls undefined (non-u32 inputs to u32/u64 routines) are not generated".into(),
@@ -1847,14 +1887,14 @@ fn run_shard(pg: &Progs, cfg: &Cfg, shard: usize, shards: usize) -> Report {
     let mut rep = Report::new();
     let sel = Sel { shard, shards };
     let prov = MemAdviceProvider::default();
-    let nr = cfg.n(8, 120);
+    let nr = cfg.n(6, 100);
     fam_bitcount(pg, &prov, sel, &mut rng, nr * 2, &mut rep);
     fam_ilog2(pg, &prov, sel, &mut rng, nr * 4, &mut rep);
     fam_ext2(pg, &prov, sel, &mut rng, nr * 2, &mut rep);
     fam_u64div(pg, &prov, sel, &mut rng, nr * 4, &mut rep);
     // Merkle: every shard builds its own random trees; depths rotate over the shards
     let depths: [u8; 8] = [1, 2, 3, 4, 5, 6, 16, 3];
-    let rounds = cfg.n(4, 64);
+    let rounds = cfg.n(3, 48);
     for r in 0..rounds {
         let depth = depths[(shard + r) % depths.len()];
         fam_merkle(pg, depth, &mut rng, &mut rep);
@@ -1921,7 +1961,29 @@ pub fn run(cfg: &Cfg) -> Report {
     rep.floor(unfired == 0, "every-scripted-deviation-reached-the-vm");
     let rejected = rep.get_count("dishonest", "rejected");
     let accepted = rep.get_count("dishonest", "accepted-with-correct-result");
-    rep.note("dishonest_runs", json!({"rejected": rejected, "accepted_with_correct_result": accepted, "scripted_deviation_not_reached": unfired}));
+    let panicked = rep.get_count("dishonest", "panicked");
+    rep.note("dishonest_runs", json!({"rejected": rejected, "aborted_by_panic": panicked, "accepted_with_correct_result": accepted, "scripted_deviation_not_reached": unfired}));
+    // aborts provoked by dishonest advice ("does not complete": allowed by the property, listed here)
+    let panics: Vec<Value> = rep
+        .hist
+        .get("dishonest_panics")
+        .map(|h| {
+            h.iter()
+                .map(|(k, n)| {
+                    let mut it = k.splitn(3, '|');
+                    json!({"instruction": it.next().unwrap_or(""), "site": it.next().unwrap_or(""), "message": it.next().unwrap_or(""), "count": n})
+                })
+                .collect()
+        })
+        .unwrap_or_default();
+    rep.note("panics_on_dishonest_advice", json!(panics));
+    // wrong results accepted by routines that the property statement does not list
+    let outside: Vec<Value> = rep
+        .hist
+        .get("outside_statement")
+        .map(|h| h.iter().map(|(k, n)| json!({"case": k, "count": n})).collect())
+        .unwrap_or_default();
+    rep.note("outside_statement", json!({"routines": ["std::crypto::dsa::rpo_falcon512::mod_12289"], "observed": outside, "example": "begin exec.rpo_falcon512::mod_12289 end, stack [12289], host answers q_lo=0, r_lo=12289 -> returns 12289 instead of 0 (no r < 12289 check)"}));
     // a few concrete samples
     rep.sample(json!({"instr": "u32clz", "program": "begin u32clz end", "stack_top_first": ["1", S1.to_string(), S2.to_string()], "script": [Step::Pop { nth: 0, v: 30 }.to_json()], "truth": 31, "required": "Err or final stack [31, ..]"}));
     rep.sample(json!({"instr": "u64::div", "program": "use.std::math::u64 begin exec.u64::div end", "operands": "a=7, b=2", "script": [Step::ReplaceAfter { inj: "U64Div".into(), nth: 0, vals: vec![2, 0, 3, 0] }.to_json()], "hint": "q=2, r=3 (compensated)", "required": "Err or [0, 3, ..]"}));
